@@ -75,6 +75,8 @@ pub struct MinCase {
     pub m: usize,
     pub threads: usize,
     pub recs: Vec<Vec<u8>>,
+    /// id number of each record (">r<id>"); not necessarily unique
+    pub ids: Vec<usize>,
 }
 
 fn run_body(c: &MinCase, inp: &str, out: &str) {
@@ -86,7 +88,7 @@ fn run_body(c: &MinCase, inp: &str, out: &str) {
 }
 
 fn reset_event(c: &MinCase, mode: &str) -> Value {
-    json!({"ev":"reset","mode": if c.m2s {"m2s"} else {"s2m"},"run":mode,"w":c.w,"m":c.m,"recs":c.recs,"nw":c.threads})
+    json!({"ev":"reset","mode": if c.m2s {"m2s"} else {"s2m"},"run":mode,"w":c.w,"m":c.m,"recs":c.recs,"ids":c.ids,"nw":c.threads})
 }
 
 fn finish(c: &MinCase, out: &str, evs: &mut Vec<Value>) {
@@ -100,7 +102,7 @@ fn finish(c: &MinCase, out: &str, evs: &mut Vec<Value>) {
 pub fn free_run(c: &MinCase, dir: &str, perturb: Option<u64>) -> Vec<Value> {
     let inp = format!("{}/min_in.fa", dir);
     let out = format!("{}/min_out.txt", dir);
-    write_fasta(&inp, &c.recs);
+    write_fasta_ids(&inp, &c.recs, &c.ids);
     let _ = std::fs::remove_file(&out);
     let rec = Recorder::free(perturb);
     rec.reset_tasks();
@@ -142,9 +144,24 @@ pub fn gen_case(rng: &mut Rng, i: usize, maxrecs: usize) -> MinCase {
             let len = if j < 4 { rng.range(1800, 2200) as usize } else { rng.range(0, 60) as usize };
             recs.push((0..len).map(|_| *rng.pick(b"ACGT")).collect());
         }
-        return MinCase { m2s: false, w: 8, m: 7, threads: 6, recs };
+        let ids = (0..recs.len()).collect();
+        return MinCase { m2s: false, w: 8, m: 7, threads: 6, recs, ids };
     }
-    MinCase { m2s: i % 2 == 1, w, m, threads: 1 + rng.below(16) as usize, recs }
+    let mut recs = recs;
+    let mut ids: Vec<usize> = (0..recs.len()).collect();
+    if i % 5 >= 3 && !recs.is_empty() {
+        // names need not be unique: the same read written twice under one name (identical lines / identical regions), and
+        // another sequence under a name already used
+        for _ in 0..(1 + rng.below(3)) {
+            let j = rng.below(recs.len() as u64) as usize;
+            let at = rng.below(recs.len() as u64 + 1) as usize;
+            let copy = if rng.below(4) == 0 { let n = rng.range(0, 60) as usize; gen_seq(rng, n, false) } else { recs[j].clone() };
+            let id = ids[j];
+            recs.insert(at, copy);
+            ids.insert(at, id);
+        }
+    }
+    MinCase { m2s: i % 2 == 1, w, m, threads: 1 + rng.below(16) as usize, recs, ids }
 }
 
 /// trace minout <seed> <runs> <dir> <maxrecs>
@@ -175,10 +192,17 @@ pub fn replay(schedfile: &str, threads: usize, dir: &str, seed: u64, stride: usi
         let schedule: Vec<(u64, String)> = v.as_array().unwrap().iter().map(|s| (s[0].as_u64().unwrap(), s[1].as_str().unwrap().to_string())).collect();
         let nrec = schedule.iter().filter(|s| s.1 == "w").count();
         let recs: Vec<Vec<u8>> = (0..nrec).map(|_| { let n = rng.range(3, 30) as usize; gen_seq(&mut rng, n, false) }).collect();
-        let c = MinCase { m2s, w: if i % 2 == 0 { 0 } else { 4 }, m: 2, threads, recs };
+        // every third schedule: the second record is the first one again, under the same name
+        let mut recs = recs;
+        let mut ids: Vec<usize> = (0..recs.len()).collect();
+        if i % 3 == 2 && recs.len() >= 2 {
+            recs[1] = recs[0].clone();
+            ids[1] = ids[0];
+        }
+        let c = MinCase { m2s, w: if i % 2 == 0 { 0 } else { 4 }, m: 2, threads, recs, ids };
         let inp = format!("{}/min_in.fa", dir);
         let out = format!("{}/min_out.txt", dir);
-        write_fasta(&inp, &c.recs);
+        write_fasta_ids(&inp, &c.recs, &c.ids);
         let _ = std::fs::remove_file(&out);
         let rec = Recorder::controlled(
             &["min.worker_start", "min.before_take", if m2s { "min.before_push" } else { "min.before_write" }],
@@ -235,7 +259,8 @@ pub fn replay(schedfile: &str, threads: usize, dir: &str, seed: u64, stride: usi
 /// decode minout <fasta> <out> <mode> <w> <m>: an output file written by the command line, as a run of MinOutTrace (one silent worker)
 pub fn decode(fasta: &str, out: &str, m2s: bool, w: usize, m: usize) {
     let recs = read_simple_fasta(fasta);
-    let c = MinCase { m2s, w, m, threads: 1, recs };
+    let ids: Vec<usize> = read_simple_fasta_ids(fasta).iter().map(|&x| x.max(0) as usize).collect();
+    let c = MinCase { m2s, w, m, threads: 1, recs, ids };
     let mut evs = vec![reset_event(&c, "cli")];
     finish(&c, out, &mut evs);
     for e in evs {
